@@ -7,6 +7,7 @@ from hypothesis import strategies as st
 
 from .. import chains as C
 from .. import names as N
+from ..snapshot import make_parser
 from ..harness import Mismatch, hyp_run, impl
 
 ID = "C13"
@@ -102,8 +103,27 @@ def check_default(case):
     return s, want
 
 
+def parser_prelude(c):
+    """Before anything is rendered, a .dec text in which this chain's decaying names are aliases of other particles is
+    expanded through the parser (the expansion shares its code with to_string): nothing of it may linger."""
+    from .. import names as N
+
+    xs = [m for m, _, _, _ in c["decays"] if N.safe_label(m)][:2]
+    if not xs:
+        return False
+    lines = []
+    for i, x in enumerate(xs):
+        lines += [f"Alias {x} zz_target{i}", f"Decay {x}", "1.0 zz_a zz_b PHSP;", "Enddecay"]
+    lines += ["Decay zz_top", "1.0 " + " ".join(xs) + " zz_c PHSP;", "Enddecay"]
+    p = make_parser("\n".join(lines) + "\n", ID)
+    with impl(ID, "expand_decay_modes (prelude)"):
+        p.expand_decay_modes("zz_top")
+    return True
+
+
 def check_case(case, rec):
     c = case["chain"]
+    prelude = bool(case.get("parser_first")) and parser_prelude(c)
     s, want = check_default(c)
     # order independence: permuted sub-decay mapping and permuted daughters
     alt = {"mother": c["mother"], "decays": [[m, b, [ds[i] for i in case["dperm"][: len(ds)] if i < len(ds)] + [], md] for m, b, ds, md in reversed(c["decays"])]}
@@ -115,7 +135,7 @@ def check_case(case, rec):
     if s2 != s:
         raise Mismatch("C13:order-dependent", "descriptor differs when daughters / sub-decays are supplied in another order", s, s2)
     pat = case.get("patterns")
-    classes = []
+    classes = ["after-a-parser-expansion-with-these-names-as-aliases"] if prelude else []
     with impl(ID, "build"):
         dc_same = C.build_chain(c)
     if to_string(c, None, dc_same) != s:
@@ -175,7 +195,8 @@ def gen_case(draw):
         pat = {"kind": "family", "open": o, "close": cl, "a1": draw(st.sampled_from(arrows)), "a2": draw(st.sampled_from(arrows))}
     elif pk == 2:
         pat = {"kind": "postfix", "a1": draw(st.sampled_from(ARROWS)), "a2": draw(st.sampled_from(ARROWS))}
-    return {"chain": c, "patterns": pat, "dperm": draw(st.permutations(list(range(6)))), "ws": draw(st.one_of(st.none(), st.integers(0, 3)))}
+    return {"chain": c, "patterns": pat, "dperm": draw(st.permutations(list(range(6)))), "ws": draw(st.one_of(st.none(), st.integers(0, 3))),
+            "parser_first": draw(st.sampled_from((False,) * 7 + (True,)))}
 
 
 def replay(case, rec):
